@@ -12,41 +12,50 @@ LEVEL = "proof"
 
 
 def evaluate(ctx, run):
+    """every run of every case is judged: run 0 on the case's circuit, run 1 (the second legalize of a 'twice' case, on the SAME Circuit
+    object) on the case's circuit with the placement the first run returned"""
     mism, ofail = [], []
     nontriv = set()
+    run.second_runs_judged = 0
     for i, l in enumerate(run.lines):
         ctoks, params = lc.split_case(l)
-        kind, pl, order = run.parsed[i][0]
-        same, istr, mstr = run.model_cmp(i, 0)
-        if not same:
-            mism.append((l, istr, mstr))
-        flags = run.checks.get((i, 0))
-        mflags = run.model_flags(i, 0)
         cells, _ = lc.cells_of(ctoks)
         orig = [v for c in cells for v in (c[0], c[1], c[4])]
-        if kind == "OK":
-            if flags is None or flags[0] != "1":
-                ofail.append((l, run.impl[i], "legalize returned normally but the placement is not legal (proved checker legalb = false)"))
-            if pl != orig:
-                nontriv.add(l)
-        elif kind in ("NOROW", "NOTALL") or kind.startswith("THROW"):
-            if pl is not None and pl != orig:
-                ofail.append((l, run.impl[i], "legalize raised an error but left a modified placement"))
-            triv = flags[2] if flags else mflags[2]
-            if triv == "1":
-                ofail.append((l, run.impl[i], "legalize failed (%s) although success is trivial (row-high cells without polarity, total width <= free width - one max width per segment)" % kind))
-            if kind.startswith("THROW"):
-                ofail.append((l, run.impl[i], "unexpected exception: " + kind))
-        else:
-            ofail.append((l, run.impl[i], "no outcome (abort/crash): " + kind))
+        for k, (kind, pl, order) in enumerate(run.parsed[i]):
+            tag = "" if k == 0 else "[second legalize of the same Circuit, run %d] " % k
+            run.second_runs_judged += k > 0
+            same, istr, mstr = run.model_cmp(i, k)
+            if not same:
+                mism.append((l, tag + istr, mstr))
+            flags = run.checks.get((i, k))
+            mflags = run.model_flags(i, k)
+            if kind == "OK":
+                if flags is None or flags[0] != "1":
+                    ofail.append((l, run.impl[i], tag + "legalize returned normally but the placement is not legal (proved checker legalb = false)"))
+                if pl != orig and k == 0:
+                    nontriv.add(l)
+            elif kind in ("NOROW", "NOTALL") or kind.startswith("THROW"):
+                if pl is not None and pl != orig:
+                    ofail.append((l, run.impl[i], tag + "legalize raised an error but left a modified placement"))
+                triv = flags[2] if flags else mflags[2]
+                if triv == "1":
+                    ofail.append((l, run.impl[i], tag + "legalize failed (%s) although success is trivial (row-high cells without polarity, total width <= free width - one max width per segment)" % kind))
+                if kind.startswith("THROW"):
+                    ofail.append((l, run.impl[i], tag + "unexpected exception: " + kind))
+            else:
+                ofail.append((l, run.impl[i], tag + "no outcome (abort/crash): " + kind))
+            if pl is None or len(pl) != len(orig):
+                break
+            orig = pl       # the next run starts from this placement
     return mism, ofail, nontriv
 
 
 def run(ctx):
-    proof_ok, proof = common.proof_status(ctx, "C01")
+    proof_ok, proof = common.proof_status_all(ctx, "C01", ["gaps1"])
     n = 4000 if ctx.quick else 400000
     s = ctx.seed
-    plan = [(0, n // 2, s), (8, n // 4, s + 1), (2, n // 8, s + 2), (4, n // 8, s + 3), (32, n // 8, s + 4), (64, n // 4, s + 5)]
+    plan = [(0, n // 2, s), (8, n // 4, s + 1), (2, n // 8, s + 2), (4, n // 8, s + 3), (32, n // 8, s + 4), (64, n // 4, s + 5),
+            (1, n // 8, s + 6), (1 | 4, n // 16, s + 7)]     # bit 1: legalize TWICE on the same Circuit (row-high cells): both runs are judged
     if not ctx.quick:
         plan += [(0, n // 2, s + 1000), (0, n // 2, s + 2000), (64, n // 4, s + 1005)]
     run = lc.LegalRun(ctx, plan).execute()
@@ -102,7 +111,7 @@ def run(ctx):
                                    "legality of the raw model's result is PROVED on std_design for every cell order (c01_legalize_circuit_legal / c01_legalize_real_legal); outside std_design it is only validated per case by the proved checker legalb",
                                    "'a failure leaves the placement' holds by construction of the model (circuit_after) and is validated per case; exceptions other than NoRow/NotAllPlaced are not modelled, every such exception is reported as 'unexpected exception'",
                                    "the model computes in unbounded Z; generated coordinates stay within about 2^16, no magnitude hypothesis is proved for C01",
-                                   "for the 'legalize twice' cases only the first run is compared and judged here"])
+                                   "'legalize twice' cases: BOTH runs are compared with the model and judged (legalb, failure leaves the placement, trivial success); second runs judged in this run: %d" % run.second_runs_judged])
 
 
 def replay(ctx, path):
@@ -123,7 +132,7 @@ def replay(ctx, path):
     mism, ofail, _ = evaluate(ctx, run)
     print("case :", case)
     print("impl :", run.impl[0])
-    print("model:", run.model.get((0, 0)))
-    print("checkers on impl result (legalb orient_okb trivially_feasible):", run.checks.get((0, 0)))
+    print("model:", run.model.get((0, 0)), "|| second run:", run.model.get((0, 1)))
+    print("checkers on impl result (legalb orient_okb trivially_feasible):", run.checks.get((0, 0)), "|| second run:", run.checks.get((0, 1)))
     print("oracle:", [o[2] for o in ofail], "mismatch:", bool(mism))
     return 1 if (mism or ofail) else 0
